@@ -240,6 +240,8 @@ def run(tier, build, replay=None):
     proofs = core.check_proofs(build, "C11.v")
     rng = core.Rng(core.seed(), 11)
     n = 5000 if tier == "quick" else 30000
+    if str(build.translator.get("parser", "")).startswith("fallback"):
+        n *= 2                   # the parser fragment was not recognised: the model runs on the accepted tables, boost the stream
     bundles = []
     if replay:
         bundles = [replay]
